@@ -120,7 +120,10 @@ class Capture:
 
         def wrapped(*a, **k):
             r = self.orig(*a, **k)
-            self.calls.append((a, r))
+            # snapshot: the library mutates some of these arrays in place afterwards (indefinite_orthogonalize
+            # subtracts projections from the rows of the kernel basis it was given)
+            snap = lambda x: tuple(snap(y) for y in x) if isinstance(x, tuple) else (np.array(x, copy=True) if isinstance(x, np.ndarray) else x)
+            self.calls.append((snap(tuple(a)), snap(r)))
             return r
         setattr(self.mod, self.name, wrapped)
         return self
@@ -153,21 +156,27 @@ def run_fi(inp):
     B = Q.decf(inp["B"])
     n = B.shape[0]
     rows = np.array([Q.decf(r) for r in inp["rows"]]).reshape(tuple(inp["shape"]) + (inp["k"], n))
-    with Capture(core, "kernel") as cap:
+    with Capture(core, "kernel") as cap, Capture(np.linalg, "svd") as scap:
         out = utils.find_isometry(B, rows.copy(), inp["force_oriented"])
     (args, ker), = cap.calls
+    (_, (su, ss, svh)), = scap.calls
     ker = np.asarray(ker, dtype=float).swapaxes(-1, -2)      # rows
     return {"shape": list(out.shape), "out": L.units(out, 2).tolist(),
             "ker": [L.fenc(k) for k in L.units(ker, 2)], "kshape": list(ker.shape),
             "kin": [L.fenc(a) for a in L.units(np.asarray(args[0], dtype=float), 2)],
-            "dets": np.linalg.det(L.units(out, 2)).tolist()}
+            "dets": np.linalg.det(L.units(out, 2)).tolist(),
+            "u": [L.fenc(x) for x in L.units(su, 2)], "s": [L.fenc(x) for x in L.units(ss, 1)], "vh": [L.fenc(x) for x in L.units(svh, 2)]}
 
 
 def lean_fi(inp, obs):
     if "exc" in obs:
         return []
     ops = []
-    for r, k, kin, o in zip(inp["rows"], obs["ker"], obs["kin"], obs["out"]):
+    n = sum(inp["sig"])
+    for r, k, kin, o, su, ss, svh in zip(inp["rows"], obs["ker"], obs["kin"], obs["out"], obs["u"], obs["s"], obs["vh"]):
+        # the SVD contract assumed by findIsometry_isIso_svd, on the call find_isometry actually made
+        ops.append({"op": "c18.kernel_residual", "A": kin, "n": n, "N": k, "u": su, "s": ss, "vh": svh})
+        ops.append({"op": "c18.svd_kernel", "m": inp["k"], "s": ss, "tol": Q.qs(1e-8), "vh": svh})
         ops.append({"op": "c18.find_isometry", "form": inp["B"], "partial": r, "ker": k})
         ops.append({"op": "c18.gram", "form": inp["B"], "rows": L.fenc(np.array(o))})
         # kernel contract: the captured kernel rows are annihilated by (orth_partial @ form), i.e. F-orthogonal to partial
@@ -185,7 +194,15 @@ def judge_fi(inp, obs, lr):
     if obs["kshape"] != inp["shape"] + [n - inp["k"], n]:
         return {"expected": "kernel basis with n-k rows", "observed": obs["kshape"], "tags": dict(tags, kernel_dim=True), "property_failure": True}
     for u in range(len(inp["rows"])):
-        fi, gram, kc = lr[3 * u:3 * u + 3]
+        kr, sel, fi, gram, kc = lr[5 * u:5 * u + 5]
+        for res in (kr, sel):
+            if "err" in res:
+                return {"expected": "model answer", "observed": res, "tags": dict(tags, driver_err=res["err"])}
+        rr = {k_: (float(F(v)) if isinstance(v, str) else v) for k_, v in kr["ok"].items()}
+        if max(rr["svd_recon"], rr["svd_orth"]) > 1e-9 * 40 or not rr["svd_sorted"] or rr["svd_len"] != min(inp["k"], n):
+            return {"expected": "svd contract on orth_partial @ form", "observed": rr, "tags": dict(tags, lapack_contract=True)}
+        if sel["ok"] != obs["ker"][u]:
+            return {"expected": {"svdKernelRows": sel["ok"]}, "observed": obs["ker"][u], "tags": dict(tags, selection=True)}
         for res in (fi, gram, kc):
             if "err" in res:
                 if res is fi and res["err"] == "DivZero":
